@@ -18,7 +18,7 @@ models' loops:
 * routing: `Spec.Match.firstMatchSpec` — the FIRST policy, in list order, with a rule matching the attributes (C01);
   the upstream must be a member of that policy's subset (or of the server list when it has none), a current server,
   not disabled by any entry of the spec, healthy by its last report (C03);
-* flow control: `Spec.LocalLimiter.demand` — a max-in-flight schema admits iff fewer than `M` of the requests admitted under
+* flow control: `Spec.LocalLimiter.demandExact` — a max-in-flight schema admits iff fewer than `M` of the requests admitted under
   it are unfinished; exempt / unknown / default admit (C05); a token bucket admits only while it holds a token (C06);
 * the forwarded request: C04's per-part judges (`Spec.Forward`), C02's judge on the identity-bearing fields;
 * otherwise: the row of C04's decision table for the FIRST failing stage, a well-formed `Status`, nothing forwarded.
@@ -80,7 +80,7 @@ def schemaOf (cl : Cluster) (i : Nat) : Str :=
 
 /-- does the schema admit an arriving request: C05's demand; for a token bucket (no demand there) C06's bucket -/
 def admits (s : State) (σ : KG.Spec.LocalLimiter.SState) (c n : Str) (now : Rat) : Bool :=
-  match KG.Spec.LocalLimiter.demand σ c n with
+  match KG.Spec.LocalLimiter.demandExact σ c n with
   | some d => d
   | none => (bucketAnswer s.lim s.buckets c n now).1
 
@@ -139,7 +139,7 @@ def judgeStages (env : Env) (s : State) (σ : KG.Spec.LocalLimiter.SState) (r : 
              cls ((Model.Endpoints.serverNames cl.cfg.servers).contains o.endpoint) "gw.endpoint.not-a-server" ++
              cls (eligible cl o.endpoint) "gw.endpoint.not-ready" ++
              cls (admits s σ cl.cfg.name (schemaOf cl i) r.now)
-               (if (KG.Spec.LocalLimiter.demand σ cl.cfg.name (schemaOf cl i)).isSome then "gw.admitted-over-limit"
+               (if (KG.Spec.LocalLimiter.demandExact σ cl.cfg.name (schemaOf cl i)).isSome then "gw.admitted-over-limit"
                 else "gw.admitted-empty-bucket"))))
 
 /-- … and what it received must be the client's request (C04's per-part judges) -/
